@@ -63,8 +63,9 @@ struct C01 : vr::Driver {
     hists = th ? std::vector<int>{0, 1, 2, 3, 4} : std::vector<int>{0, 2, 4};
     reapVals = th ? std::vector<int>{1, 0} : std::vector<int>{1};
     acVals = th ? std::vector<int>{0, 1} : std::vector<int>{0};
-    // dims: shape, pop, plugin, pattern, recursive, kernelkill, outcome, history, reap, always_continue
-    mx.dims = {kShapes.size(), 5, plugins.size(), 7, 2, 2, 4, hists.size(), reapVals.size(), acVals.size()};
+    // dims: shape, pop, plugin, pattern, recursive, kernelkill, outcome, history, reap, always_continue,
+    //       prekill hook (none / matches everything and stays pending for one tick, so the kill is deferred and resumed)
+    mx.dims = {kShapes.size(), 5, plugins.size(), 7, 2, 2, 4, hists.size(), reapVals.size(), acVals.size(), 2};
   }
   size_t count() override { return mx.total(); }
   size_t chunk() override { return 16; }
@@ -102,6 +103,12 @@ struct C01 : vr::Driver {
     if (h == 3) s.steps.push_back({2, 1, shape[0] + "/zz"});
     if (h == 4) s.steps.push_back({2, 2, shape[0]});
     if (s.plugin == "kill_by_pg_scan" && s.ticks < 2) s.ticks = 2;  // first firing tick only samples
+    if (d[10]) {
+      s.hooksJson = "{\"name\":\"verif_hook\",\"args\":{\"id\":\"h\",\"cgroup\":\"/\"}}";
+      s.hookTimeout = 30;
+      s.hookDecide = [](const std::string&, long, int polls) { return polls >= 1; };
+      s.ticks += 1;
+    }
     return s;
   }
   std::string describe(size_t i) override { return build(i).describe(); }
@@ -162,6 +169,18 @@ struct C01 : vr::Driver {
         }
       }
     }
+    // the victim announced to a prekill hook is the victim that is attacked once the hook is over
+    for (auto& a : o.attempts) {
+      const sim::HookEvent* lastFire = nullptr;
+      for (auto& h : o.hooks)
+        if (h.kind == "fire" && h.effectIndex <= a.effBegin) lastFire = &h;
+      if (!lastFire) continue;
+      bool otherBetween = false;
+      for (auto& b : o.attempts)
+        if (&b != &a && b.effBegin >= lastFire->effectIndex && b.effBegin < a.effBegin) otherBetween = true;
+      if (!otherBetween && a.victim != lastFire->cgroup)
+        return fail("victim-differs-from-hooked-cgroup", "the prekill hook was fired for " + lastFire->cgroup + " but the attack that followed hit " + a.victim);
+    }
     for (auto& a : o.attempts)
       if (!ks::legalVictim(s.args["cgroup"], recursive, a.victim))
         return fail("illegal-victim", "victim " + a.victim + " is not matched by '" + s.args["cgroup"] + "' (recursive=" + (recursive ? "1" : "0") + ")");
@@ -191,10 +210,10 @@ struct C01 : vr::Driver {
     return "full product of: 6 tree shapes with glob-ambiguous names (s1,s10,s1x,.s1,t1; up to 3 levels) x 5 population patterns "
            "(1 proc per leaf, 23 procs, a '0' line, populated internal nodes, nested-only) x kill plugin x 7 cgroup arguments "
            "(literal, s*, s?, multi, */a, s1/*, root) x recursive x kernelkill x 4 kill-outcome policies (all die, all ESRCH, "
-           "first EPERM, first lingers) x multi-tick history (none / vanish / sibling appears / re-created) [x reap_memory x "
+           "first EPERM, first lingers) x prekill hook {none, pending for one tick} x multi-tick history (none / vanish / sibling appears / re-created) [x reap_memory x "
            "always_continue in thorough]; each scenario runs the real plugin wet through Oomd::run; monitor: SIGKILL only, pid>0, "
            "pid listed in the selected victim's subtree, victim legal under an independent matcher, xattr/cgroup.kill/freeze "
-           "writes only on the victim, stop at first success; non-trivial = distinct attempt log with >=1 attempt";
+           "writes only on the victim, victim == cgroup announced to the prekill hook, stop at first success; non-trivial = distinct attempt log with >=1 attempt";
   }
   Json::Value bounds() override {
     Json::Value b;
